@@ -44,7 +44,7 @@ Layouts ==
      << Seg(0, VBase, 5000, 5000 + 12288, TRUE) >>,
      << Seg(0, VBase, 800, 800, FALSE), Seg(4096, VBase + 4096, 4500, 4500 + 8192, TRUE), Seg(8596, VBase + 28672 + 404, 300, 300, FALSE) >> >>
 Types == {"EXEC", "DYN"}
-Biases == {0, 5 * Page, 77 * Page}
+Biases == {0, 5 * Page, 77 * Page, 0 - 16 * Page}      \* the last one: loaded BELOW the link-time address (prelinked object moved down)
 
 ExecIdx(l) == CHOOSE k \in DOMAIN l : l[k].x
 \* the loader's mapping of the executable segment
